@@ -351,8 +351,10 @@ CHECKS = {
               "value (A1), >=2 definitions over >=2 levels (A2)."),
         assumptions=["the relative rank of a task template's own defaults and vars is not claimed (statement silent)",
                      "role-level user variables exist only through the request (root) in the generated cases"],
-        quick=[R("^TestGeraMap$", 3000, 1, 300), R("^TestStageVisibility$", 600, 2, 300), R("^TestPrecedenceFixed$", 1, 1, 300), R("^TestPrecedence$", 25, 8, 900, shrinktime="90s")],
-        thorough=[R("^TestGeraMap$", 100000, 2, 1500), R("^TestStageVisibility$", 15000, 4, 1500), R("^TestPrecedenceFixed$", 1, 1, 300), R("^TestPrecedence$", 300, 14, 3400, shrinktime="180s")],
+        quick=[R("^TestGeraMap$", 3000, 1, 300), R("^TestStageVisibility$", 600, 2, 300), R("^TestPrecedenceFixed$", 1, 1, 300), R("^TestPrecedence$", 25, 8, 900, shrinktime="90s"),
+               R("^TestRuntimeVarScopeFixed$", 1, 1, 300), R("^TestRuntimeVarScope$", 8, 2, 600, shrinktime="60s")],
+        thorough=[R("^TestGeraMap$", 100000, 2, 1500), R("^TestStageVisibility$", 15000, 4, 1500), R("^TestPrecedenceFixed$", 1, 1, 300), R("^TestPrecedence$", 300, 14, 3400, shrinktime="180s"),
+                  R("^TestRuntimeVarScopeFixed$", 1, 1, 300), R("^TestRuntimeVarScope$", 100, 2, 3400, shrinktime="120s")],
     ),
     "C15": dict(
         pkg="./props/c15", bins=["./cmd/simcore"], race_bins=["./cmd/simcore"], level="exploration",
